@@ -50,6 +50,15 @@ var addArmed sync.Map
 type addGate struct {
 	entered chan struct{}
 	release chan struct{}
+	prelock bool // park right before Add takes the heap lock instead of inside the critical section
+}
+
+func (g *addGate) park() {
+	close(g.entered)
+	select {
+	case <-g.release:
+	case <-time.After(30 * time.Second):
+	}
 }
 
 // qEvent: a poll or an insertion of one queue, recorded while the queue's heap lock is held, so that the order of the
@@ -82,13 +91,13 @@ func init() {
 			w.qev = append(w.qev, qEvent{pop: false, due: t, at: time.Now()})
 			w.popMu.Unlock()
 		}
-		if v, ok := addArmed.Load(t.UnixNano()); ok {
-			g := v.(*addGate)
-			close(g.entered)
-			select {
-			case <-g.release:
-			case <-time.After(30 * time.Second):
-			}
+		if v, ok := addArmed.Load(t.UnixNano()); ok && !v.(*addGate).prelock {
+			v.(*addGate).park()
+		}
+	}
+	timed.VerifAddLockHook = func(_ any, t time.Time) {
+		if v, ok := addArmed.Load(t.UnixNano()); ok && v.(*addGate).prelock {
+			v.(*addGate).park()
 		}
 	}
 	timed.VerifPollHook = func(_ any, t time.Time) {
@@ -1246,7 +1255,8 @@ func runAddRace(r *hx.Run, sub uint64, workers, reps int) {
 		time.Sleep(time.Millisecond)
 		base := time.Now()
 		due := base.Add(3*time.Millisecond + time.Duration(1+armSeq.Add(1)%900000)*time.Nanosecond)
-		g := &addGate{entered: make(chan struct{}), release: make(chan struct{})}
+		// odd rounds park the adder right before it takes the heap lock, even rounds inside the critical section
+		g := &addGate{entered: make(chan struct{}), release: make(chan struct{}), prelock: rep%2 == 1}
 		addArmed.Store(due.UnixNano(), g)
 		var ran atomic.Int32
 		var ranAt atomic.Int64
@@ -1281,7 +1291,7 @@ func runAddRace(r *hx.Run, sub uint64, workers, reps int) {
 		if accepted {
 			evs = append(evs, fmt.Sprintf("sched %d 1 %d", rep+1, due.Sub(base).Microseconds()))
 			if ran.Load() == 0 {
-				fails = append(fails, finding{"eventually-delivered", fmt.Sprintf("addrace: ExecuteAt returned a task while Shutdown() was starting (workers=%d); the task was never run although neither cancelled nor dropped by a flag", workers), map[string]string{"oracle": "missing-delivery", "mode": "addrace"}, true})
+				fails = append(fails, finding{"eventually-delivered", fmt.Sprintf("addrace: ExecuteAt returned a task while Shutdown() was starting (workers=%d, adder parked before the lock: %v); the task was never run although neither cancelled nor dropped by a flag", workers, g.prelock), map[string]string{"oracle": "missing-delivery", "mode": "addrace"}, true})
 			} else {
 				evs = append(evs, fmt.Sprintf("run %d %d", rep+1, ranAt.Load()))
 			}
@@ -1301,6 +1311,207 @@ func runAddRace(r *hx.Run, sub uint64, workers, reps int) {
 		}
 	}
 	r.Nontrivial(fmt.Sprintf("addrace-%d", workers))
+}
+
+// runAddBurst: idle pollers and Adds back to back.  One callback blocks on a harness channel; every other element
+// that is due and not cancelled must be delivered within the bound although that worker is blocked (each Add has to
+// wake a waiting poller, not only the Add that finds the queue empty).
+func runAddBurst(r *hx.Run, sub uint64, workers, k int, sameDue bool, reps int) {
+	r.Case(sub)
+	op := fmt.Sprintf("addburst %d %d %v %d", workers, k, sameDue, reps)
+	var fails []finding
+	var evs []string
+	x := 0
+	for rep := 0; rep < reps; rep++ {
+		te := timed.NewTaskExecutor[int](workers)
+		time.Sleep(2 * time.Millisecond) // all workers wait on the empty queue
+		base := time.Now()
+		us := func(t time.Time) int64 { return max(t.Sub(base).Microseconds(), 0) }
+		release := make(chan struct{})
+		var mu sync.Mutex
+		var loc []string
+		type bt struct {
+			x    int
+			due  time.Time
+			runs atomic.Int32
+		}
+		ts := make([]*bt, k)
+		for i := range ts {
+			x++
+			d := base
+			if !sameDue {
+				d = base.Add(time.Duration(i) * 300 * time.Microsecond)
+			}
+			ts[i] = &bt{x: x, due: d}
+			loc = append(loc, fmt.Sprintf("sched %d - %d", x, us(d)))
+		}
+		// back to back, from one goroutine: the first callback blocks
+		for i, t := range ts {
+			t, blocks := t, i == 0
+			te.Executor.ExecuteAt(func() {
+				now := time.Now()
+				t.runs.Add(1)
+				mu.Lock()
+				loc = append(loc, fmt.Sprintf("run %d %d", t.x, us(now)))
+				mu.Unlock()
+				if blocks {
+					select {
+					case <-release:
+					case <-time.After(30 * time.Second):
+					}
+				}
+			}, t.due)
+		}
+		deadline := time.Now().Add(time.Second)
+		for time.Now().Before(deadline) {
+			all := true
+			for _, t := range ts {
+				if t.runs.Load() == 0 {
+					all = false
+				}
+			}
+			if all {
+				break
+			}
+			time.Sleep(time.Millisecond)
+		}
+		missing := 0
+		for _, t := range ts {
+			switch n := t.runs.Load(); {
+			case n == 0:
+				missing++
+			case n > 1:
+				fails = append(fails, finding{"at-most-once", "addburst: task ran twice", map[string]string{"oracle": "double-run", "mode": "addburst"}, true})
+			}
+		}
+		if missing > 0 {
+			fails = append(fails, finding{"eventually-delivered", fmt.Sprintf("addburst: %d idle workers, %d Adds back to back (same due time: %v), the first callback blocks: %d due element(s) not delivered within 1s", workers, k, sameDue, missing),
+				map[string]string{"oracle": "missing-delivery", "mode": "addburst"}, true})
+		}
+		close(release)
+		done := make(chan struct{})
+		go func() { te.Shutdown(); close(done) }()
+		select {
+		case <-done:
+		case <-time.After(2 * time.Second):
+			fails = append(fails, finding{"shutdown-returns", "addburst: Executor.Shutdown() did not return", map[string]string{"oracle": "shutdown-hang", "mode": "addburst"}, true})
+		}
+		mu.Lock()
+		evs = append(evs, loc...)
+		mu.Unlock()
+	}
+	r.Line(op, "done")
+	for _, e := range evs {
+		r.Line("ev "+e, "ok")
+	}
+	r.Line("check", "accept")
+	seen := map[string]bool{}
+	for _, f := range fails {
+		if !seen[f.oracle+f.sig["oracle"]] {
+			seen[f.oracle+f.sig["oracle"]] = true
+			r.Fail(f.oracle, f.detail, f.sig)
+		}
+	}
+	r.CountN("stress-events", len(evs))
+	r.Nontrivial(fmt.Sprintf("addburst-%d-%d-%v", workers, k, sameDue))
+}
+
+// runSdRace: public API only.  Adders call ExecuteAt in a loop while Shutdown() (no flag) is called: an element whose
+// ExecuteAt returned non-nil must be delivered (Shutdown without CancelPendingElements drops nothing), and Shutdown
+// must return.
+func runSdRace(r *hx.Run, sub uint64, workers, adders, reps int) {
+	r.Case(sub)
+	rng := hx.NewRng(sub)
+	op := fmt.Sprintf("sdrace %d %d %d", workers, adders, reps)
+	var fails []finding
+	accepted, refused, lost := 0, 0, 0
+	for rep := 0; rep < reps; rep++ {
+		te := timed.NewTaskExecutor[int](workers)
+		var ran, acc, ref atomic.Int64
+		var wg sync.WaitGroup
+		stop := make(chan struct{})
+		for a := 0; a < adders; a++ {
+			wg.Add(1)
+			go func(far bool) {
+				defer wg.Done()
+				for i := 0; i < 5000; i++ {
+					select {
+					case <-stop:
+						return
+					default:
+					}
+					d := 50 * time.Microsecond
+					if far {
+						d = 2 * time.Millisecond
+					}
+					if h := te.Executor.ExecuteAt(func() { ran.Add(1) }, time.Now().Add(d)); h != nil {
+						acc.Add(1)
+					} else {
+						ref.Add(1)
+
+						return
+					}
+				}
+			}(a%2 == 1)
+		}
+		// contention on the heap lock (Cancel of an already cancelled element only takes and releases it): an adder
+		// that has passed its shutdown check may have to queue for the lock
+		if probe := te.Executor.ExecuteAt(func() {}, time.Now()); probe != nil {
+			for c := 0; c < 4; c++ {
+				wg.Add(1)
+				go func() {
+					defer wg.Done()
+					for {
+						select {
+						case <-stop:
+							return
+						default:
+							probe.Cancel()
+						}
+					}
+				}()
+			}
+		}
+		time.Sleep(time.Duration(200+rng.Intn(1500)) * time.Microsecond)
+		done := make(chan struct{})
+		go func() { te.Shutdown(); close(done) }()
+		hung := false
+		select {
+		case <-done:
+		case <-time.After(3 * time.Second):
+			hung = true
+			fails = append(fails, finding{"shutdown-returns", "sdrace: Executor.Shutdown() did not return", map[string]string{"oracle": "shutdown-hang", "mode": "sdrace"}, true})
+		}
+		close(stop)
+		wg.Wait()
+		// Shutdown() returned: the workers left after the queue was empty; whatever was accepted has been run,
+		// except for callbacks still in flight - give those a moment
+		for i := 0; i < 200 && !hung && ran.Load() < acc.Load(); i++ {
+			time.Sleep(time.Millisecond)
+		}
+		accepted += int(acc.Load())
+		refused += int(ref.Load())
+		if n := acc.Load() - ran.Load(); n > 0 && !hung {
+			lost += int(n)
+			fails = append(fails, finding{"eventually-delivered", fmt.Sprintf("sdrace: %d workers, %d adders, Shutdown() racing ExecuteAt: %d task(s) whose ExecuteAt returned non-nil were never run although Shutdown() returned and nothing was cancelled", workers, adders, n),
+				map[string]string{"oracle": "missing-delivery", "mode": "sdrace"}, true})
+		}
+		if ran.Load() > acc.Load() {
+			fails = append(fails, finding{"at-most-once", "sdrace: more runs than accepted tasks", map[string]string{"oracle": "double-run", "mode": "sdrace"}, true})
+		}
+	}
+	r.Line(op, "done")
+	seen := map[string]bool{}
+	for _, f := range fails {
+		if !seen[f.oracle+f.sig["oracle"]] {
+			seen[f.oracle+f.sig["oracle"]] = true
+			r.Fail(f.oracle, f.detail, f.sig)
+		}
+	}
+	r.CountN("sdrace-accepted", accepted)
+	r.CountN("sdrace-refused", refused)
+	r.CountN("sdrace-lost", lost)
+	r.Nontrivial(fmt.Sprintf("sdrace-%d-%d", workers, adders))
 }
 
 func b2i(b bool) int {
@@ -1370,7 +1581,19 @@ func main() {
 			}
 			keep = append(keep, l)
 		}
-		if len(keep) > 0 && strings.HasPrefix(keep[0], "addrace") {
+		if len(keep) > 0 && strings.HasPrefix(keep[0], "addburst") {
+			f := strings.Fields(keep[0])
+			a, _ := strconv.Atoi(f[1])
+			b, _ := strconv.Atoi(f[2])
+			c, _ := strconv.Atoi(f[4])
+			runAddBurst(r, r.Seed, a, b, f[3] == "true", c)
+		} else if len(keep) > 0 && strings.HasPrefix(keep[0], "sdrace") {
+			f := strings.Fields(keep[0])
+			a, _ := strconv.Atoi(f[1])
+			b, _ := strconv.Atoi(f[2])
+			c, _ := strconv.Atoi(f[3])
+			runSdRace(r, r.Seed, a, b, c)
+		} else if len(keep) > 0 && strings.HasPrefix(keep[0], "addrace") {
 			f := strings.Fields(keep[0])
 			a, _ := strconv.Atoi(f[1])
 			b, _ := strconv.Atoi(f[2])
@@ -1473,7 +1696,19 @@ func main() {
 	}
 	for _, wk := range []int{1, 2} {
 		_, sub := r.Rng.Fork()
-		runAddRace(r, sub, wk, 5*r.Scale)
+		runAddRace(r, sub, wk, 6*r.Scale)
+	}
+	for _, cfg := range [][3]int{{2, 2, 1}, {2, 2, 0}, {3, 3, 1}, {3, 4, 0}, {2, 4, 1}} {
+		_, sub := r.Rng.Fork()
+		runAddBurst(r, sub, cfg[0], cfg[1], cfg[2] == 1, 6*r.Scale)
+	}
+	for _, cfg := range [][2]int{{4, 4}, {1, 4}, {2, 8}} {
+		_, sub := r.Rng.Fork()
+		reps := 500 * r.Scale
+		if v, err := strconv.Atoi(os.Getenv("C18_SDRACE_REPS")); err == nil {
+			reps = v
+		}
+		runSdRace(r, sub, cfg[0], cfg[1], reps)
 	}
 	for _, fl := range []string{"-", "c", "i", "ci"} {
 		for _, wk := range []int{2, 3} {
